@@ -38,6 +38,8 @@ pub struct Profile {
     pub f_cooling: bool,
     pub f_more_decimals: bool,
     pub f_ambiguous_aux: bool,
+    /// Two services of a system consume exactly the same (equal rows in the by-service tables).
+    pub f_ties: bool,
     pub p_zero: f64,
     /// Maximum value in hundredths of kWh.
     pub max_hundredths: u64,
@@ -81,6 +83,7 @@ pub fn gen_profile(rng: &mut Rng, focus: Focus, thorough: bool) -> Profile {
         f_cooling: rng.chance(0.4),
         f_more_decimals: false,
         f_ambiguous_aux: false,
+        f_ties: false,
         p_zero: *rng.pick(&[0.0, 0.05, 0.2, 0.5]),
         max_hundredths: *rng.pick(&[100, 10_000, 1_000_000, 10_000_000]),
     };
@@ -108,6 +111,7 @@ pub fn gen_profile(rng: &mut Rng, focus: Focus, thorough: bool) -> Profile {
             }
         }
         Focus::Output => {
+            p.f_ties = rng.chance(0.25);
             p.f_needs = rng.chance(0.7);
             p.f_comments = rng.chance(0.8);
             p.f_hostile_text = rng.chance(0.6);
@@ -177,9 +181,10 @@ const PLAIN_WORDS: [&str; 12] = [
     "BdC 1", "Caldera", "PV", "ACS", "Equipo de calefacción COP 3", "n_gen=2.5 n_d+e+c=0.88", "Paneles solares térmicos 2m2",
     "Producción fotovoltaica in situ", "Energía entregada", "SISTEMA SECUNDARIO FC_P01_E01  ventiladores", "x", "Demanda anual",
 ];
-const HOSTILE_BITS: [&str; 22] = [
+const HOSTILE_BITS: [&str; 36] = [
     "<", ">", "&", "\"", "'", "\\", "#", ",", ";", ":", "é", "ñ", "€", "日本", "\u{1F600}", "&amp;", "<b>", "]]>", "<!--", "--", "%s",
-    "\t",
+    "\t", "I&D;", "AT&T;", "&#0;", "&#xZZ;", "&#12", "&lt", "&;", "&amp;amp;", "&quot;x&quot;", "</Comentario>", "<![CDATA[", "?>", "\u{feff}",
+    "\u{fffd}",
 ];
 const CONTROL_BITS: [&str; 4] = ["\u{1}", "\u{8}", "\u{b}", "\u{1f}"];
 
@@ -299,7 +304,16 @@ pub fn gen_building(rng: &mut Rng, p: &Profile) -> Building {
                     if rng.chance(0.65) {
                         let n_lines = if p.f_multi && rng.chance(0.5) { 2 + rng.usize(2) } else { 1 };
                         for _ in 0..n_lines {
-                            let ks = gen_values(rng, p);
+                            // ties: a service that consumes exactly what another one does (equal table values)
+                            let tie: Option<Vec<i64>> = if p.f_ties {
+                                used_hund.iter().find(|(s2, c2, _)| c2 == c && s2 != s).map(|(_, _, ks)| ks.clone())
+                            } else {
+                                None
+                            };
+                            let ks = match tie {
+                                Some(ks) => ks,
+                                None => gen_values(rng, p),
+                            };
                             push_line(&mut b, rng, p, id, used(s, c), &ks);
                             used_hund.push((s.to_string(), c.to_string(), ks));
                             any = true;
